@@ -61,6 +61,52 @@ def check_point_vector(seeds=(0,)):
     return dict(reproduced=False, cases=cases)
 
 
+def check_receiver_groups(seeds=(0,)):
+    """several receivers sampled in ONE call of get_receiver (tuple of coordinate arrays, and list of Rx* instances): the response of every
+    receiver of the group is the inner product of the field with the point-source vector of ITS OWN position and orientation -- the statement
+    is about each point receiver, so the other receivers of the call must not matter.  The inner product is formed with the direction cosines
+    computed here and the three unit point vectors along x, y, z (azimuth/elevation (0,0), (90,0), (0,90))."""
+    import emg3d
+    from emg3d import fields
+    cases = 0
+    groups = [('equal orientations', [30.0, 30.0, 30.0], [40.0, 40.0, 40.0]),
+              ('Ex, Ey, Ez', [0.0, 90.0, 0.0], [0.0, 0.0, 90.0]),
+              ('azimuths 45 and 135 (x-cosines cancel)', [45.0, 135.0], [0.0, 0.0]),
+              ('opposite pair', [20.0, -160.0], [35.0, -35.0]),
+              ('up and down plus oblique', [10.0, 10.0, 70.0], [90.0, -90.0, 0.0]),
+              ('azimuth scan', list(np.arange(12) * 30.0 - 170.0), [0.0] * 12),
+              ('elevation scan', [25.0] * 7, list(np.arange(7) * 30.0 - 90.0))]
+    for seed in seeds:
+        grid, rng = mk_grid(seed)
+        groups_ = groups + [('random', list(rng.uniform(-180, 180, 5)), list(rng.uniform(-90, 90, 5)))]
+        for cplx in (True, False):
+            f = rand_field(grid, rng, cplx)
+            for name, az, el in groups_:
+                az, el = np.array(az, dtype=float), np.array(el, dtype=float)
+                n = az.size
+                pts = np.array([interior_point(grid, rng) for _ in range(n)])
+                want = []
+                for j in range(n):
+                    a, e = np.deg2rad(az[j]), np.deg2rad(el[j])
+                    dc = (np.cos(a) * np.cos(e), np.sin(a) * np.cos(e), np.sin(e))
+                    unit = [fields._point_vector(grid, (pts[j, 0], pts[j, 1], pts[j, 2], a_, e_)).field for a_, e_ in ((0.0, 0.0), (90.0, 0.0), (0.0, 90.0))]
+                    want.append(sum(d * np.sum(u * f.field) for d, u in zip(dc, unit)))
+                want = np.array(want)
+                tup = (pts[:, 0], pts[:, 1], pts[:, 2], az, el)
+                lst = [emg3d.RxElectricPoint((pts[j, 0], pts[j, 1], pts[j, 2], az[j], el[j])) for j in range(n)]
+                for form, rec in (('tuple of coordinate arrays', tup), ('list of Rx instances', lst)):
+                    cases += 1
+                    got = np.ravel(np.asarray(fields.get_receiver(f, rec, method='linear')))
+                    scale = max(1.0, np.abs(want).max())
+                    if got.shape != want.shape or not np.all(np.isfinite(got)) or np.abs(got - want).max() > 1e-9 * scale:
+                        j = int(np.argmax(np.where(np.isfinite(got), np.abs(got - want), np.inf))) if got.shape == want.shape else -1
+                        return dict(reproduced=True, cases=cases, clause='every receiver of a group sampled in one call == inner product of the field with its own point-source vector',
+                                    group=name, form=form, azimuths=az.tolist(), elevations=el.tolist(), positions=pts.tolist(), receiver=j,
+                                    sampled=str(got[j]) if j >= 0 else str(got), inner_product=str(want[j]) if j >= 0 else str(want),
+                                    how='contracts.c0910_concrete.check_receiver_groups')
+    return dict(reproduced=False, cases=cases)
+
+
 def check_magnetic(seeds=(0,)):
     """get_magnetic_field == discrete Faraday from grid widths and mu_r; repeated calls on the same grid (also after a
     permeable model) give the same result; magnetic receiver == adjoint source inner product"""
@@ -96,6 +142,81 @@ def check_magnetic(seeds=(0,)):
         for a, b in zip(results[:3], results[:2:-1]):
             if np.abs(a.field - b.field).max() > 0:
                 return dict(reproduced=True, cases=cases, clause='same model and field give a different magnetic field after an intermediate call')
+    return dict(reproduced=False, cases=cases)
+
+
+def moment_vector(grid, field):
+    """1/2 sum over all edges of  r_edge x (value_edge * unit vector of the edge),  r_edge the mid-point of the edge: for a closed current loop
+    this is its area times its right-handed unit normal (the trilinear distribution of a straight segment preserves this first moment)"""
+    nx, ny, nz = grid.nodes_x, grid.nodes_y, grid.nodes_z
+    cx_, cy_, cz_ = grid.cell_centers_x, grid.cell_centers_y, grid.cell_centers_z
+    m = np.zeros(3, dtype=complex)
+    for comp, vecs, f in ((0, (cx_, ny, nz), field.fx), (1, (nx, cy_, nz), field.fy), (2, (nx, ny, cz_), field.fz)):
+        r = np.stack(np.meshgrid(*vecs, indexing='ij'), axis=-1)
+        s = np.zeros(r.shape, dtype=complex)
+        s[..., comp] = np.asarray(f)
+        m += 0.5 * np.cross(r, s).reshape(-1, 3).sum(axis=0)
+    return m
+
+
+def check_sources_from_coordinates(seed=0):
+    """get_source_field with the source given by its COORDINATES (tuple / list / ndarray) and the keywords strength, length, electric:
+    the injected moment is the caller's --
+      (x, y, z, azimuth, elevation), electric:  per-component sums == length * direction * strength * (-s mu0)
+      (x, y, z, azimuth, elevation), magnetic:  closed loop (sums 0) whose area vector == length * direction * strength * (-s mu0)
+      two electrodes / wire:                    per-component sums == (last - first electrode) * strength * (-s mu0)
+    with strength 1 A / length 1 m when not given; direction = (cos az cos el, sin az cos el, sin el) computed here."""
+    from emg3d import fields
+    cases = 0
+    grid, rng = mk_grid(seed, shape=(6, 5, 4), origin=(-10.0, 3.0, -40.0))
+    nodes = (grid.nodes_x, grid.nodes_y, grid.nodes_z)
+
+    def sums(f):
+        return np.array([f.fx.sum(), f.fy.sum(), f.fz.sum()])
+    for k in range(8):
+        c = [rng.uniform(v[1], v[-2]) for v in nodes]
+        az, el = rng.uniform(-180, 180), rng.uniform(-90, 90)
+        if k < 3:
+            az, el = [(0.0, 0.0), (90.0, 0.0), (37.0, 90.0)][k]
+        a, e = np.deg2rad(az), np.deg2rad(el)
+        direction = np.array([np.cos(a) * np.cos(e), np.sin(a) * np.cos(e), np.sin(e)])
+        coo = (c[0], c[1], c[2], az, el)
+        for strength, freq in ((None, 1.0), (2.5, None), (2.5 - 1j, 0.7), (3.0, -2.0)):
+            for length in (None, float(rng.uniform(1.5, 3.5))):
+                for electric in (None, True, False):
+                    for form in (tuple, list, np.array):
+                        cases += 1
+                        kw = {}
+                        if strength is not None:
+                            kw['strength'] = strength
+                        if length is not None:
+                            kw['length'] = length
+                        if electric is not None:
+                            kw['electric'] = electric
+                        sf = fields.get_source_field(grid, form(coo), freq, **kw)
+                        fac = (1.0 if strength is None else strength) * (1.0 if freq is None else -sf.smu0)
+                        nominal = (1.0 if length is None else length) * direction
+                        got = (moment_vector(grid, sf) if electric is False else sums(sf)) / fac
+                        closed = np.abs(sums(sf) / fac).max() if electric is False else 0.0
+                        if np.abs(got - nominal).max() > 1e-8 * max(1.0, np.abs(nominal).max()) or closed > 1e-8:
+                            return dict(reproduced=True, cases=cases,
+                                        clause=('magnetic dipole from coordinates: closed loop whose area vector == length * direction (times strength times -s mu0)'
+                                                if electric is False else 'electric dipole from coordinates: sums == length * direction (times strength times -s mu0)'),
+                                        source=list(coo), source_type=form.__name__, keywords={k_: str(v) for k_, v in kw.items()}, frequency=freq,
+                                        moment_over_strength_and_s_mu0=[str(x) for x in got], nominal=nominal.tolist(), closure=float(closed),
+                                        how='contracts.c0910_concrete.check_sources_from_coordinates')
+        # two electrodes (flat and (2, 3) format) and a wire, given by coordinates
+        p = np.array([[rng.uniform(v[0], v[-1]) for v in nodes] for _ in range(4)])
+        for src, first, last in (((p[0, 0], p[1, 0], p[0, 1], p[1, 1], p[0, 2], p[1, 2]), p[0], p[1]), (p[:2], p[0], p[1]), (p[:2].tolist(), p[0], p[1]),
+                                 (p, p[0], p[3]), (p[:3].tolist(), p[0], p[2])):
+            for kw in ({}, dict(strength=1.5), dict(strength=0.5, length=7.0)):
+                cases += 1
+                sf = fields.get_source_field(grid, src, 1.3, **kw)
+                got = sums(sf) / (kw.get('strength', 1.0) * -sf.smu0)
+                if np.abs(got - (last - first)).max() > 1e-6 * max(1.0, np.abs(last - first).max()):
+                    return dict(reproduced=True, cases=cases, clause='electrodes given by coordinates: sums == last - first electrode (times strength times -s mu0)',
+                                source=np.asarray(src).tolist(), keywords=kw, sums=[str(x) for x in got], want=(last - first).tolist(),
+                                how='contracts.c0910_concrete.check_sources_from_coordinates')
     return dict(reproduced=False, cases=cases)
 
 
